@@ -21,28 +21,13 @@ def wire_family(ctx, prop, scenarios, rule, nontrivial=None, observe_props=None)
     by_id = {s['id']: s for s in scenarios}
     evs = vt.read_traces(traces)
     ctx.evaluations += len(scenarios)
-    # a crash of the process inside a scenario is a panic of the code under test: give the scenario a
-    # synthetic Return so that the observer sees it (ok = FALSE, panic # "")
-    crashed = _crashes(evs)
-    if crashed:
-        for tp in traces:
-            lines = open(tp).read().splitlines()
-            out = []
-            for l in lines:
-                if '"event":"Crash"' in l:
-                    e = json.loads(l)
-                    out.append(json.dumps(dict(event='Return', scen=e['scen'], n=e['n'], t=0, ok=False, panic=e['msg'] or 'process died',
-                                               err=dict(nil=False, msg='crash', canceled=False, deadline=False, notsupported=False, causes=[]),
-                                               has_result=False, hops=[], src='', sport=0, dst='', dport=0, goroutines=0, gsample='',
-                                               opened=0, closed_once=0, bad_handles=[], accepts=0, race=e.get('race', False))))
-                else:
-                    out.append(l)
-            open(tp, 'w').write('\n'.join(out) + '\n')
-        evs = vt.read_traces(traces)
     for sid, es in evs.items():
         if any(e['event'] == 'HarnessError' for e in es):
             raise Infra('harness error in %s: %s' % (sid, [e for e in es if e['event'] == 'HarnessError'][0]))
     viol = vt.observe(ctx, traces, observe_props or [prop])
+    if ctx.extra.get('crashes') and prop not in vt.CRASH_PROPS:
+        c = ctx.extra['crashes'][0]
+        raise Infra('the process crashed in scenario %s (%s): inconclusive for %s, see the checks of %s' % (c['scenario'], c['panic'], prop, '/'.join(vt.CRASH_PROPS)))
     ctx.validated += len(scenarios)
     for s in scenarios:
         es = evs.get(s['id'], [])
@@ -190,7 +175,7 @@ def engine_family(ctx, prop, module, cfg, engine, obs_props, simulate=None):
         if real not in {_norm_spec_out(scr, o) for o in outs}:
             drift.append(s['id'])
             if len(ctx.notes) < 5:
-                ctx.notes.append('refinement: %s real=%r allowed=%r' % (s['id'], real, sorted({_norm_spec_out(scr, o) for o in outs})[:3]))
+                ctx.notes.append('refinement: %s real=%r allowed=%r' % (s['id'], real, list({_norm_spec_out(scr, o) for o in outs})[:3]))
         else:
             ctx.validated += 1
         if any(e['event'] == 'Got' and e['err'] == '' for e in es):
@@ -280,7 +265,7 @@ def _form_ok(variant, form):
             'rst': variant.startswith('tcp'), 'sack': variant == 'sack'}.get(form, True)
 
 def check_C08(ctx):
-    engines(ctx, 'C08', ['EngineParallelMC_cancel.cfg'], ['EngineSerialMC_cancel.cfg'], ['C08'])
+    engines(ctx, 'C08', ['EngineParallelMC_cancel.cfg', 'EngineParallelMC_cancel_long.cfg'], ['EngineSerialMC_cancel.cfg', 'EngineSerialMC_cancel_long.cfg'], ['C08'])
     rule = ctx_rule(ctx)
     scen = vt.tlc_generate(ctx, 'GenWire', 'C08', 0)
     # stalled HTTP providers / resolvers: the provider scripts of Enrich!PubAll, the slow-resolver documents of GenDoc!C18All
@@ -315,6 +300,14 @@ def check_C09(ctx):
                             'patch': patch, 'tag': 'flip/%s/%s' % (form, '-'.join('%d:%d' % tuple(x) for x in patch))})
         n = dict(c); n['id'] = '%s/random/%d' % (c['id'], k); n['twin'] = c['id']; n['label'] = c['variant'] + '/junk-batch'; n['inject'] = inj
         scen.append(n)
+    lattice = [x for x in vt.tlc_generate(ctx, 'GenWire', 'C01', 0) if x.get('inject') and x['min'] == 1]
+    if ctx.quick():
+        lattice = [x for x in lattice if x['ipid_base'] == 41821][ctx.seed % 2::2]
+    for x in lattice:
+        c = dict(x); c['id'] = x['id'].replace('C01/', 'C09/lattice/') + '#clean'; c['inject'] = []; c['label'] = 'clean'
+        n = dict(x); n['id'] = x['id'].replace('C01/', 'C09/lattice/'); n['twin'] = c['id']; n['label'] = x['variant'] + '/junk-batch'
+        n['inject'] = [dict(i, tag='lattice/' + i['tag']) for i in x['inject']]
+        scen += [c, n]
     # first pass: batches of junk; a violating batch is expanded into one scenario per junk packet (label = junk class)
     by = {s['id']: s for s in scen}
     if ctx.bin is None:
@@ -367,7 +360,11 @@ RUN_RULE = ('request-level scenarios enumerated by TLC from GenRun!%s, executed 
 def check_C15(ctx):
     vt.tlc_design(ctx, 'Multi', cfg='Multi_q.cfg' if ctx.quick() else 'Multi.cfg', timeout=900,
                   label='runTracerouteMulti: every failing subset x every completion order; all-or-error, exact counts, termination')
-    scen = vt.tlc_generate(ctx, 'GenRun', 'C15', 700 if ctx.quick() else 0)
+    scen = vt.tlc_generate(ctx, 'GenRun', 'C15', 0)
+    if ctx.quick():
+        keep = [s for s in scen if '/cancel/' in s['id']]
+        rest = [s for s in scen if '/cancel/' not in s['id']]
+        scen = keep + rest[ctx.seed % 5::5]
     wire_family(ctx, 'C15', scen, RUN_RULE % 'C15All (protocol x query counts x failing subsets x completion orders x public-IP on/off/failing)' +
                 '; non-trivial = at least one injected failure fired or more than one query ran',
                 nontrivial=lambda s, es: any(e['event'] == 'Fault' for e in es) or s['run']['queries'] + s['run']['e2e'] > 1)
@@ -497,6 +494,8 @@ DOC_RULE = ('documents enumerated by TLC from GenDoc!%s, built as real result.Re
 def check_C16(ctx):
     vt.tlc_design(ctx, 'Result', label='document algebra: C16/C17 relations for all documents in small scope + permutation invariance')
     scen = vt.tlc_generate(ctx, 'GenDoc', 'C16', 0, extra_env={})
+    # the relations must also hold after redaction (Normalize -> RemovePrivateHops): the boundary-address documents of C17
+    scen += vt.tlc_generate(ctx, 'GenDoc', 'C17', 0)
     wire_family(ctx, 'C16', scen, DOC_RULE % 'C16All (0..2 runs, hop lists over empty/v4/v6/mapped addresses, RTT sample lists of length 0..4 over {0,1,2,7} incl. every permutation)',
                 nontrivial=lambda s, es: True)
     vt.write_evidence(ctx, 'model_checking', ctx_rule(ctx), exhaustive=True)
@@ -555,10 +554,18 @@ def check_C14(ctx):
     vt.build_harness(ctx, race=True)
     scen = vt.tlc_generate(ctx, 'GenWire', 'C14', 0)
     # concurrent runs / aggregation goroutines / allocators / reverse-DNS fan-out on the ordinary wire
-    reqs = [s for s in vt.tlc_generate(ctx, 'GenRun', 'C15', 0) if s['run']['queries'] >= 2 and s['run']['e2e'] >= 1 and not s['faults']]
+    allreq = [s for s in vt.tlc_generate(ctx, 'GenRun', 'C15', 0) if 'faults' in s and s['run']['queries'] >= 2 and s['run']['e2e'] >= 1]
+    reqs = [s for s in allreq if not s['faults']]
+    # several queries failing at once (error accumulation under contention)
+    failing = []
+    for r in allreq[:: max(1, len(allreq) // 8)][:8]:
+        r = json.loads(json.dumps(r)); r['id'] += '/allfail'; r['label'] = 'request-failing/' + r['label']
+        r['faults'] = [{'op': 'write', 'k': 1, 'class': 'fatal', 'run': k} for k in range(1, 8)]
+        failing.append(r)
     for i, r in enumerate(reqs[ctx.seed % 3::3][: (12 if ctx.quick() else 60)]):
         r = json.loads(json.dumps(r)); r['run']['reverse_dns'] = True; r['run']['dns'] = {'*': 'name'}; r['label'] = 'request/' + r['label']
         scen.append(r)
+    scen += failing
     scen += [s for s in vt.tlc_generate(ctx, 'GenRun', 'C11', 0) if s.get('kind') == 'alloc' or '/mix/' in s['id']][: (16 if ctx.quick() else 80)]
     scen += vt.tlc_generate(ctx, 'GenDoc', 'C18', 12 if ctx.quick() else 100)
     by = {s['id']: s for s in scen}
